@@ -321,7 +321,7 @@ fn tx_truncate_front_any_count() {
 /// symbolic-size object (measured: > 12 GB). The stub asserts that the requested capacity equals the
 /// value the harness expects and then allocates exactly that (concrete) size; behaviour is unchanged
 /// whenever the assertion holds.
-static mut EXPECT_NEW_CAP: usize = 0;
+pub static mut EXPECT_NEW_CAP: usize = 0;
 pub fn stub_heap_new<T>(capacity: usize) -> ringbuf::storage::Heap<T> {
     let n = unsafe { EXPECT_NEW_CAP };
     assert!(capacity == n, "C19: growth requests min(2*capacity, max) bytes");
